@@ -34,14 +34,15 @@ var (
 
 // Tap is the shared recorder / fault injector of one command execution.
 type Tap struct {
-	mu      sync.Mutex
-	Calls   []string // every interface call, in order ("Manager.CreateNewRootKey", "Storage.Writer certs/x", ...)
-	Events  []Event  // spec-level events (state changes)
-	FailAt  int      // 1-based index of the call that fails (0 = none)
-	CrashAt int      // 1-based index of the call after which everything fails (0 = none)
-	crashed bool
+	mu           sync.Mutex
+	Calls        []string // every interface call, in order ("Manager.CreateNewRootKey", "Storage.Writer certs/x", ...)
+	Events       []Event  // spec-level events (state changes)
+	FailAt       int      // 1-based index of the call that fails (0 = none)
+	FailName     string   // every call with this name fails ("" = none)
+	CrashAt      int      // 1-based index of the call after which everything fails (0 = none)
+	crashed      bool
 	pubSinceSign []string // PublicKey requests since the last Sign: the first one names the subject
-	Writes  []Write
+	Writes       []Write
 	// OnDestroy, if set, is evaluated just before a key version is destroyed.
 	OnDestroy func(name string)
 }
@@ -61,7 +62,7 @@ func (t *Tap) call(name string) error {
 	}
 	t.Calls = append(t.Calls, name)
 	n := len(t.Calls)
-	if t.FailAt == n {
+	if t.FailAt == n || (t.FailName != "" && t.FailName == name) {
 		return fmt.Errorf("%s: %w", name, errInjected)
 	}
 	if t.CrashAt != 0 && n > t.CrashAt {
